@@ -1,6 +1,20 @@
 package main
 
 func init() {
+	checks["MISCTEST"] = func(r *Report, p *Program, tier string) {
+		RuleBCD(r, p)
+		RuleAddr(r, p)
+	}
+	checks["ORDERTEST"] = func(r *Report, p *Program, tier string) {
+		RuleOrder(r, p, "thorough")
+	}
+	checks["ROUTETEST"] = func(r *Report, p *Program, tier string) {
+		RuleFilter(r, p, aspectSet{"F1": true, "F2": true, "R1": true})
+		RuleF3(r, p)
+		RuleF4(r, p)
+		RuleR2(r, p)
+		RuleR3(r, p)
+	}
 	checks["TRANSTEST"] = func(r *Report, p *Program, tier string) {
 		all := aspectSet{"T1": true, "T2": true, "T3": true, "T4": true, "T5": true, "T6": true, "T7": true, "T8": true, "T9": true, "T10": true, "A2d": true}
 		RuleTransport(r, p, all)
